@@ -1,12 +1,16 @@
 (* Limit bids of x/auctionsV2 AS CODED (keeper/bid.go DepositLimitAuctionBid, CancelLimitAuctionBid,
    WithdrawLimitAuctionBid; keeper/auctions.go LimitOrderBid = the automatic fill), statement by
-   statement, INCLUDING what the code does not check: Withdraw takes amount and denom from the
-   message and compares neither with the depositor's record.
+   statement, after the two repairs
+     fixed: property=C11 7c9449c WithdrawLimitAuctionBid checked neither amount <= own deposit nor the denom (C11-F1)
+     fixed: property=C11 989e51c LimitOrderBid left BidValue stale when the deposit equalled the auction debt (C11-F2)
+   Withdraw still takes amount and denom from the message, and now compares both with the
+   depositor's record before anything moves.
      recs    UserLimitBid records, key (debt asset, collateral asset, premium, bidder) -> DebtToken coin
      totals  LimitBidProtocolData.BidValue per (debt asset, collateral asset)
      led     bank balances; MOD = the auctionsV2 module account
    Not modelled: the fee bookkeeping record (AuctionLimitBidFeeData; the code shadows the variable
-   and never records the first fee), the per-address index, the bidding-id counter.
+   in the not-found branch, so no limit-bid fee is ever recorded under the debt asset), the
+   per-address index, the bidding-id counter, the collateral side of the Dutch settlement (C10).
    Definitions only. *)
 From Comdex Require Import Lib.Base Lib.DecArith Lib.FLedger.
 
@@ -82,10 +86,13 @@ Inductive lop :=
 | Deposit  (who coll debt prem denom amt : Z)       (* MsgDepositLimitBidRequest *)
 | Cancel   (who coll debt prem : Z)                 (* MsgCancelLimitBidRequest *)
 | Withdraw (who coll debt prem denom amt : Z)       (* MsgWithdrawLimitBidRequest *)
-| AutoFill (k : key) (D spent : Z) (dutch_ok : bool).
-  (* one iteration of the LimitOrderBid loop for the record [k] against an auction whose
-     outstanding debt is D; dutch_ok / spent = outcome of PlaceDutchAuctionBid(isAutoBid) and the
-     amount of the module's debt-denom coins it disbursed (environment, see C10) *)
+| AutoFill (debt coll prem D : Z) (whos : list Z) (spent : Z) (dutch_ok : bool).
+  (* LimitOrderBid for ONE auction (one ApplyFuncIfNoError closure): the auction has outstanding
+     debt D and its discount truncates to [prem]; [whos] = the bidders of the records listed by
+     GetUserLimitBidDataByPremium, in store order.  dutch_ok = every PlaceDutchAuctionBid
+     (isAutoBid) of the closure succeeded (else the closure is rolled back); spent = the module's
+     debt-denom coins, net of the proceeds the running auctions keep in the module, that the
+     Dutch settlement disbursed (environment, see C10). *)
 
 Definition lift {A} (r : lres) (code : Z) (k : ledger -> outcome A) : outcome A :=
   match r with LOk l => k l | LErr => Err code | LPanic => Panic end.
@@ -110,6 +117,34 @@ Definition cancel (c : cfg) (s : lstate) (who coll debt prem : Z) : outcome lsta
                   l')
       | Err e => Err e
       | Panic => Panic
+      end
+  end.
+
+(* the loop body of LimitOrderBid over the listed records, against the auction record read BEFORE
+   the loop (the code never re-reads it: every iteration sees the same D); returns the state and
+   the amount the records were charged.  A record the listing names but the store no longer has
+   is not iterated.  The equal-amount branch returns from the closure. *)
+Fixpoint fill_recs (debt coll prem D : Z) (whos : list Z) (s : lstate) : lstate * Z :=
+  match whos with
+  | [] => (s, 0)
+  | w :: rest =>
+      let k := mkK debt coll prem w in
+      match aget keq k (recs s) with
+      | None => fill_recs debt coll prem D rest s
+      | Some r =>
+          if r_amt r >=? D then
+            if r_amt r =? D then
+              (mkL (adel keq k (recs s)) (aset meq (debt, coll) (tot (debt, coll) s - D) (totals s)) (led s), D)
+            else
+              let '(s', ch) := fill_recs debt coll prem D rest
+                                 (mkL (aset keq k (mkR (r_amt r - D) (r_denom r)) (recs s))
+                                      (aset meq (debt, coll) (tot (debt, coll) s - D) (totals s)) (led s)) in
+              (s', D + ch)
+          else
+            let '(s', ch) := fill_recs debt coll prem D rest
+                               (mkL (adel keq k (recs s))
+                                    (aset meq (debt, coll) (tot (debt, coll) s - r_amt r) (totals s)) (led s)) in
+            (s', r_amt r + ch)
       end
   end.
 
@@ -145,8 +180,9 @@ Definition lstep (c : cfg) (s : lstate) (o : lop) : outcome lstate :=
       match aget keq k (recs s) with
       | None => Err 1
       | Some r =>
+          if negb (denom =? r_denom r) then Err 5 else              (* ErrorUnknownDebtToken *)
+          if amt >? r_amt r then Err 7 else                         (* ErrInsufficientFunds *)
           if amt =? r_amt r then cancel c s who coll debt prem else
-          (* NO check amt <= r_amt r, NO check denom = r_denom r *)
           match (if r_amt r >? 0 then
                    match fee_of (withdrawal_fee c) amt with
                    | None => Panic
@@ -161,24 +197,12 @@ Definition lstep (c : cfg) (s : lstate) (o : lop) : outcome lstate :=
           | Panic => Panic
           end
       end
-  | AutoFill k D spent dutch_ok =>
-      match aget keq k (recs s) with
-      | None => Ok s
-      | Some r =>
-          if negb dutch_ok then Err 30 else
-          lift (burn_from (led s) MOD (r_denom r) spent) 31 (fun l' =>
-          if r_amt r >=? D then
-            if r_amt r =? D then
-              (* returns before touching protocolData.BidValue *)
-              Ok (mkL (adel keq k (recs s)) (totals s) l')
-            else
-              Ok (mkL (aset keq k (mkR (r_amt r - D) (r_denom r)) (recs s))
-                      (aset meq (market k) (tot (market k) s - D) (totals s))
-                      l')
-          else
-            Ok (mkL (adel keq k (recs s))
-                    (aset meq (market k) (tot (market k) s - r_amt r) (totals s))
-                    l'))
+  | AutoFill debt coll prem D whos spent dutch_ok =>
+      if negb dutch_ok then Err 30 else
+      let '(s1, _) := fill_recs debt coll prem D whos s in
+      match denom_of c debt with
+      | None => Ok s1                                             (* no such asset: no record either *)
+      | Some dd => lift (burn_from (led s1) MOD dd spent) 31 (fun l' => Ok (mkL (recs s1) (totals s1) l'))
       end
   end.
 
@@ -196,30 +220,6 @@ Definition sum_denom (d : Z) (s : lstate) : Z :=
   asum (fun _ r => r_denom r =? d) r_amt (recs s).
 Definition all_nonneg (s : lstate) : bool := forallb (fun kr => 0 <=? r_amt (snd kr)) (recs s).
 
-(* ---------------- known-finding classes (executable) ---------------- *)
-(* F1: a withdraw whose amount exceeds the depositor's own record, or (for a partial withdraw)
-   whose denom is not the deposited one *)
-Definition kf_C11_1 (s : lstate) (o : lop) : bool :=
-  match o with
-  | Withdraw who coll debt prem denom amt =>
-      match aget keq (mkK debt coll prem who) (recs s) with
-      | Some r => (amt >? r_amt r) || (negb (amt =? r_amt r) && negb (denom =? r_denom r))
-      | None => false
-      end
-  | _ => false
-  end.
-
-(* F2: the automatic fill meets a record whose amount equals the auction's debt exactly *)
-Definition kf_C11_2 (s : lstate) (o : lop) : bool :=
-  match o with
-  | AutoFill k D _ dutch_ok =>
-      match aget keq k (recs s) with
-      | Some r => dutch_ok && (r_amt r =? D)
-      | None => false
-      end
-  | _ => false
-  end.
-
 (* ---------------- property predicates on observed states ---------------- *)
 (* total of market m = sum of its deposits; every deposit >= 0; custody in denom d, relative to
    what the module held when the case started, covers the deposits in that denom *)
@@ -230,7 +230,7 @@ Definition holds_C11_limit_custody (s : lstate) (d base : Z) : bool :=
   nonneg_denom d s && (sum_denom d s <=? led s MOD d - base).
 
 (* own deposit only: what a Withdraw/Cancel paid to [who] in denom d (observed balance change),
-   judged against the depositor's record before the step *)
+   judged against the depositor's record before the step; d ranges over the debt denoms *)
 Definition holds_C11_limit_own (pre : lstate) (o : lop) (d delta : Z) : bool :=
   match o with
   | Cancel who coll debt prem | Withdraw who coll debt prem _ _ =>
@@ -238,5 +238,6 @@ Definition holds_C11_limit_own (pre : lstate) (o : lop) (d delta : Z) : bool :=
       | Some r => if d =? r_denom r then (delta <=? Z.max 0 (r_amt r)) else (delta <=? 0)
       | None => delta <=? 0
       end
-  | _ => true
+  | AutoFill _ _ _ _ _ _ _ => delta <=? 0       (* a fill pays out collateral only (C10), never debt coins *)
+  | Deposit _ _ _ _ _ _ => true
   end.
